@@ -10,9 +10,9 @@ VAL = CLS + "._validate_input"
 
 
 def check(ctx):
-    r171_172(ctx)
-    r173(ctx)
-    r174(ctx)
+    ctx.guard(r171_172, ctx)
+    ctx.guard(r173, ctx)
+    ctx.guard(r174, ctx)
 
 
 def _train_steps(r):
